@@ -50,10 +50,18 @@ class Ctx:
 def run_property(prop: str, tier: str, root: str, evidence_dir: str | None = None, known_path: str | None = None) -> int:
     seed = int(os.environ.get("VERIF_SEED", "0") or 0)
     run = Run(prop, tier, root, seed)
+    scratch = None
     try:
         mod = importlib.import_module(f"tlsa.props.{prop.lower()}")
-        ctx = Ctx(root, tier)
+        from . import canon
+
+        aroot, renames, scratch = canon.canonical_root(root)
+        for new_name, old_name in sorted(renames.items()):
+            print(f"[{prop}] note: private anchor `{old_name}` was renamed to `{new_name}` (same module, same parameters, matching body, no other use of either name): analysed under its reference name")
+        ctx = Ctx(aroot, tier)
         explanation = mod.check(run, ctx)
+        if renames:
+            explanation = (explanation or mod.__doc__ or prop) + " [analysed after undoing the rename of " + ", ".join(f"{o}->{n}" for n, o in sorted(renames.items())) + "]"
         baseline = getattr(mod, "BASELINE", None)
         return run.finish(explanation or mod.__doc__ or prop, known_path=known_path, evidence_dir=evidence_dir, baseline=baseline)
     except (AnchorVanished, AnalysisError) as e:
@@ -65,6 +73,11 @@ def run_property(prop: str, tier: str, root: str, evidence_dir: str | None = Non
         print(f"ANALYSIS-ERROR property={prop} internal: {e!r}")
         _write_error_evidence(run, repr(e), evidence_dir)
         return 2
+    finally:
+        if scratch:
+            import shutil
+
+            shutil.rmtree(scratch, ignore_errors=True)
 
 
 def _write_error_evidence(run: Run, msg: str, evidence_dir: str | None) -> None:
